@@ -652,3 +652,72 @@ def positive_ifs(fn):
         if hasattr(fn, a):
             setattr(new, a, getattr(fn, a))
     return new
+
+
+def attr_writes_deep(fn, methods, recv="self", depth=2):
+    """attr_writes of `fn` plus those of the same-class helpers it calls as `self.helper(...)` (to `depth` levels):
+    moving a block of assignments into a private helper method does not change what the method writes."""
+    out = list(attr_writes(fn, recv))
+    seen = {getattr(fn, "name", None)}
+    frontier = [fn]
+    for _ in range(depth):
+        nxt = []
+        for f in frontier:
+            for c in (x for x in walk_no_nested(f) if isinstance(x, ast.Call)):
+                if isinstance(c.func, ast.Attribute) and isinstance(c.func.value, ast.Name) and c.func.value.id == recv and c.func.attr in methods and c.func.attr not in seen:
+                    seen.add(c.func.attr)
+                    callee = methods[c.func.attr]
+                    crecv = callee.args.args[0].arg if callee.args.args else recv
+                    out += list(attr_writes(callee, crecv))
+                    nxt.append(callee)
+        frontier = nxt
+    return out
+
+
+def inline_trivial_helpers(fn, methods, recv="self"):
+    """Copy of `fn` in which calls `self.helper(a, ..)` to same-class methods whose whole body is `return <expr>` are
+    replaced by that expression (parameters substituted): extracting an expression into a one-line private helper
+    does not change the caller."""
+    table = {}
+    for name, m in methods.items():
+        body = [s for s in m.body if not (isinstance(s, ast.Expr) and isinstance(s.value, ast.Constant))]
+        if len(body) == 1 and isinstance(body[0], ast.Return) and body[0].value is not None and m is not fn:
+            params = [a.arg for a in m.args.args]
+            if not m.args.vararg and not m.args.kwarg and not m.args.kwonlyargs and not any(dotted(d) in ("property", "staticmethod", "classmethod") for d in m.decorator_list):
+                table[name] = (params, body[0].value)
+    if not table:
+        return fn
+    hit = [False]
+
+    class T(ast.NodeTransformer):
+        def visit_Call(self, n):
+            self.generic_visit(n)
+            f = n.func
+            if isinstance(f, ast.Attribute) and isinstance(f.value, ast.Name) and f.value.id == recv and f.attr in table and not n.keywords:
+                params, expr = table[f.attr]
+                if len(n.args) == len(params) - 1:
+                    sub = dict(zip(params[1:], n.args))
+                    sub[params[0]] = ast.Name(id=recv, ctx=ast.Load())
+
+                    class S(ast.NodeTransformer):
+                        def visit_Name(self, x):
+                            if x.id in sub:
+                                return clone(sub[x.id])
+                            return x
+
+                    hit[0] = True
+                    return ast.copy_location(S().visit(clone(expr)), n)
+            return n
+
+    new = T().visit(clone(fn))
+    if not hit[0]:
+        return fn
+    ast.fix_missing_locations(new)
+    for node in ast.walk(new):
+        for child in ast.iter_child_nodes(node):
+            child._parent = node
+    new._parent = getattr(fn, "_parent", None)
+    for a in ("_qualname", "_module", "_class"):
+        if hasattr(fn, a):
+            setattr(new, a, getattr(fn, a))
+    return new
